@@ -76,6 +76,7 @@ func (l *lnStub) AddPaymentCallback(f func(swapId string, invoiceType swap.Invoi
 
 func (l *lnStub) AddPaymentNotifier(swapId string, payreq string, invoiceType swap.InvoiceType) {
 	l.n.op("ln.notifier")
+	rt.ReleaseLineage() // race builds: the later notification is ordered after this registration
 	l.n.w.LN.AddNotifier(l.n, swapId, payreq, invoiceType)
 }
 
